@@ -21,6 +21,7 @@ use std::time::Duration;
 struct Held {
     dc: Option<Arc<DataChannel>>,
     label: String,
+    tag: u64,
     reader: Option<tokio::task::JoinHandle<()>>,
 }
 
@@ -61,7 +62,7 @@ fn apply(pcs: &HashMap<&str, PeerConnection>, held: &mut HashMap<&'static str, V
             for s in sides {
                 let label = format!("neg{id}");
                 match pcs[s].create_data_channel(&label, Some(neg_cfg(id))) {
-                    Ok(dc) => held.get_mut(s).unwrap().push(Held { dc: Some(dc), label, reader: None }),
+                    Ok(dc) => held.get_mut(s).unwrap().push(Held { dc: Some(dc), label, tag: *tag, reader: None }),
                     Err(e) => div.push(json!({"rule": "CreateSucceeds", "step": step, "side": s, "error": e.to_string()})),
                 }
             }
@@ -76,23 +77,21 @@ fn apply(pcs: &HashMap<&str, PeerConnection>, held: &mut HashMap<&'static str, V
                     if before.contains(&dc.id) {
                         div.push(json!({"rule": "UniqueLive", "step": step, "side": s, "allocated": dc.id, "live": before}));
                     }
-                    held.get_mut(s).unwrap().push(Held { dc: Some(dc), label, reader: None });
+                    held.get_mut(s).unwrap().push(Held { dc: Some(dc), label, tag: *tag, reader: None });
                 }
                 Err(e) => div.push(json!({"rule": "CreateSucceeds", "step": step, "side": s, "error": e.to_string()})),
             }
         }
-        "drop" => {
-            let s = sides[0];
-            let k = op["k"].as_u64().unwrap_or(0) as usize;
-            // the model numbers the channels a side knows (own creations and, after Connect, the peer's in-band
-            // ones); the application can only drop handles it holds: the k-th channel it created itself
-            let alive: Vec<usize> = held[s].iter().enumerate().filter(|(_, h)| h.dc.is_some()).map(|(i, _)| i).collect();
-            if !alive.is_empty() {
-                let i = alive[k.saturating_sub(1) % alive.len()];
-                let h = &mut held.get_mut(s).unwrap()[i];
-                h.dc = None;
-                if let Some(r) = h.reader.take() {
-                    r.abort(); // the reader's clone of the handle goes with it
+        "dropboth" => {
+            // both applications give the channel up: every handle they hold for it goes (handles of channels
+            // announced by the peer are dropped by the caller, which owns them)
+            let t = op["k"].as_u64().unwrap_or(0);
+            for s in ["A", "B"] {
+                for h in held.get_mut(s).unwrap().iter_mut().filter(|h| h.tag == t) {
+                    h.dc = None;
+                    if let Some(r) = h.reader.take() {
+                        r.abort();
+                    }
                 }
             }
         }
@@ -147,6 +146,7 @@ fn stage_ids(progs: &[Value], out: &mut NdjsonOut) {
 }
 
 struct Seen {
+    readers: Vec<(String, String, tokio::task::JoinHandle<()>)>, // (at side, label, reader of an announced channel)
     announced: Vec<(String, u16, String, String)>, // (at side, sid, label, protocol)
     received: Vec<(String, String, String)>,        // (at side, label of the receiving channel, payload)
 }
@@ -165,7 +165,7 @@ async fn run_pair(p: &Value) -> Vec<Value> {
     let mut cfg = PairCfg::default();
     cfg.dc = false;
     let pair = Pair::new_with(&cfg, false, false);
-    let seen = Arc::new(parking_lot::Mutex::new(Seen { announced: Vec::new(), received: Vec::new() }));
+    let seen = Arc::new(parking_lot::Mutex::new(Seen { readers: Vec::new(), announced: Vec::new(), received: Vec::new() }));
     let mut tasks = Vec::new();
     let mut pcs = HashMap::new();
     pcs.insert("A", pair.a.pc());
@@ -176,8 +176,10 @@ async fn run_pair(p: &Value) -> Vec<Value> {
         tasks.push(tokio::spawn(async move {
             while let Some(ev) = pc.recv().await {
                 if let PeerConnectionEvent::DataChannel(dc) = ev {
+                    let label = dc.label.clone();
                     seen2.lock().announced.push((s.to_string(), dc.id, dc.label.clone(), dc.protocol.clone()));
-                    reader(s, dc, seen2.clone());
+                    let h = reader(s, dc, seen2.clone());
+                    seen2.lock().readers.push((s.to_string(), label, h));
                 }
             }
         }));
@@ -207,11 +209,39 @@ async fn run_pair(p: &Value) -> Vec<Value> {
             }
             connected = true;
         } else {
+            if op["op"] == "dropboth" && connected {
+                // the peer's handle of an in-band channel exists once the DCEP OPEN has arrived: wait for it, then
+                // both sides let go
+                let t = op["k"].as_u64().unwrap_or(0);
+                let label = format!("ib{t}");
+                let is_ib = ["A", "B"].iter().any(|s| held[*s].iter().any(|h| h.tag == t && h.dc.as_ref().map(|d| !d.negotiated).unwrap_or(false)));
+                if is_ib {
+                    let sn = seen.clone();
+                    let l2 = label.clone();
+                    wait_until(Duration::from_millis(1500), || sn.lock().announced.iter().any(|a| a.2 == l2)).await;
+                    let mut g = seen.lock();
+                    let mut k = 0;
+                    while k < g.readers.len() {
+                        if g.readers[k].1 == label {
+                            let (_, _, h) = g.readers.remove(k);
+                            h.abort();
+                        } else {
+                            k += 1;
+                        }
+                    }
+                }
+            }
             let d = apply(&pcs, &mut held, op, &mut tag, i + 1);
             if d.iter().any(|x| x["type"] == "inapplicable") {
                 break;
             }
             divs.extend(d);
+            if op["op"] == "inband" && connected {
+                // a connected in-band create is complete for the peer when its DCEP OPEN has arrived
+                let label = format!("ib{tag}");
+                let sn = seen.clone();
+                wait_until(Duration::from_millis(1500), || sn.lock().announced.iter().any(|a| a.2 == label)).await;
+            }
         }
         // readers for the channels created so far
         for s in ["A", "B"] {
